@@ -4,8 +4,8 @@ CONSTANTS
   Kinds = {"vargroup", "func", "opmethod", "stmt", "flit", "flitres"}
   Variants = {"plain", "lead", "trail"}
   FuncExprIsDecl = FALSE
-  ParenIsNesting = TRUE
-  ImportIsDecl = TRUE
-  TrailingCommentStays = TRUE
+  ParenIsNesting = FALSE
+  ImportIsDecl = FALSE
+  TrailingCommentStays = FALSE
 INVARIANTS WantIsStatement CodeKeepsBytes SplitSane CodeMeetsStatement Export
 PROPERTY Terminates
